@@ -18,17 +18,16 @@ Lemma go_RowToBlockAndOffset_spec (row : nat) :
 Proof.
   intros Hrow. start_func go_RowToBlockAndOffset. unfold v_nat.
   steps.
-  change (Z.quot (Z.of_nat row) 255) with (Z.of_nat row ÷ 255).
-  assert (Q : Z.of_nat row ÷ 255 = Z.of_nat (row / 255)).
+  (* everything the code can compute from row is a function of q = row quot 255, r = row rem 255 *)
+  pose proof (Z.quot_rem' (Z.of_nat row) 255) as Hqr.
+  pose proof (Z.rem_bound_pos (Z.of_nat row) 255 ltac:(lia) ltac:(lia)) as Hr.
+  pose proof (Z.quot_pos (Z.of_nat row) 255 ltac:(lia) ltac:(lia)) as Hq.
+  assert (Q : Z.quot (Z.of_nat row) 255 = Z.of_nat (row / 255)).
   { rewrite Z.quot_div_nonneg by lia. now rewrite Nat2Z.inj_div. }
-  rewrite Q.
   pose proof (Nat.mul_div_le row 255 ltac:(lia)) as Hle.
-  pose proof (Nat.mod_upper_bound row 255 ltac:(lia)) as Hmod.
-  pose proof (Nat.div_mod row 255 ltac:(lia)) as Hdm.
-  rewrite (wrap_u32 (Z.of_nat (row / 255) * 255)) by lia.
-  rewrite (wrap_u32 (Z.of_nat row - _)) by lia.
-  rewrite wrap_u8 by lia.
-  cbn [row_addr_spec fst snd]. repeat f_equal. lia.
+  set (q := Z.quot (Z.of_nat row) 255) in *. set (r := Z.rem (Z.of_nat row) 255) in *.
+  unwrap.
+  cbn [row_addr_spec fst snd]. repeat f_equal; lia.
 Qed.
 
 Lemma go_RowToBlockAndOffset_model_ingest (row : nat) :
